@@ -175,7 +175,7 @@ def run(ctx, driver):
                 "non-trivial = at least one spike before sim_time or an active bound")
     rng = ctx.rng("script")
     cases = [c["case"] for c in ctx.corpus() if "case" in c and "rates" in c["case"]]
-    cases += [gen_script_case(rng) for _ in range(60 if quick else 1500)]
+    cases += [gen_script_case(rng) for _ in range(ctx.n(60, 1500))]
     results = pool.run_cases("harness.props.c13", "case_scripted", cases, timeout=60, init="_init_worker", deadline=ctx.deadline(0.5))
     ops = []
     for case, res in zip(cases, results):
@@ -215,7 +215,7 @@ def run(ctx, driver):
                                               "model_t_log": [tb.bits2f(b) for b in (model.get("t_log") or [])][:12]})
     # ---- numerical stand-in runs: events and bounds on analysed systems
     rng = ctx.rng("numeric")
-    ncases = [gen_numeric_case(rng, i) for i in range(8 if quick else 60)]
+    ncases = [gen_numeric_case(rng, i) for i in range(ctx.n(8, 60))]
     nres = pool.run_cases("harness.props.c13", "case_numeric", ncases, timeout=150, init="_init_worker", deadline=ctx.deadline())
     for case, res in zip(ncases, nres):
         ctx.evaluations += 1
